@@ -62,6 +62,20 @@ func takePending() []*Task {
 //go:norace
 func resetTimers() { pending, armed = nil, 0 }
 
+var timerDone chan struct{}
+
+//go:norace
+func setTimerDone(c chan struct{}) { timerDone = c }
+
+//go:norace
+func getTimerDone() chan struct{} { return timerDone }
+
+func joinTimer() {
+	if c := getTimerDone(); c != nil {
+		c <- struct{}{}
+	}
+}
+
 //go:norace
 func noteFired(l *Local) { l.TimersFired++ }
 
@@ -125,6 +139,7 @@ func AfterFunc(d time.Duration, f func()) *time.Timer {
 		raceDisable()
 		nt.back <- msg{site: -1}
 		raceEnable()
+		joinTimer() // visible join edge, as for the other tasks: the driver reads what the callback wrote after the run
 	}()
 	return rt
 }
